@@ -789,3 +789,35 @@ Proof.
 Qed.
 End Step.
 End Cov.
+
+(* ---------- all histories ---------- *)
+Fixpoint g_run (hf : key -> N) (rc : Z * Z * Z) (s : hstate) (g : ghost) (ops : list op) : Prop :=
+  match ops with
+  | [] => True
+  | o :: t =>
+    match h_step v_fixed hf rc s o with
+    | Err _ => False
+    | Ok (s', x, _) => g_check s o x g /\ g_run hf rc s' (g_step s o x g) t
+    end
+  end.
+
+Theorem hash_c18_coverage_from : forall hf rc ops s g, TopQ hf s -> (h_alive s = true -> CovAll s g) -> g_run hf rc s g ops.
+Proof.
+  induction ops; simpl; intros s g TQ CA; auto.
+  assert (TI : TopInv s). { destruct TQ as [D|[T _]]; [left|right]; auto. }
+  destruct (hash_step_total hf rc s a TI) as [s' [x [ns [E _]]]]. rewrite E.
+  assert (TQ' : TopQ hf s') by (eapply hash_step_q; eauto).
+  destruct TQ as [D|[T Q]].
+  - split. intro; congruence. apply IHops; auto. intro A'.
+    unfold h_step in E. destruct rc as [[e1 e2] e3]. rewrite D in E. simpl in E. inversion E; subst. congruence.
+  - destruct (cov_step hf rc s a s' x ns g T Q (CA (q_alive _ _ Q)) E) as [CK CA']. split; auto.
+Qed.
+
+(* C18, coverage clauses, pointer-level hashtable model: along EVERY history, at every iter_next that returns a key the
+   key was not returned before by that iterator unless some key was inserted since the iterator was created, and at
+   every iter_next that reports the end every key that was present when the iterator was created and has not been
+   removed since has been returned by it *)
+Theorem hash_c18_coverage : forall hf rc m ops, g_run hf rc (h_create m) [] ops.
+Proof.
+  intros. apply hash_c18_coverage_from. apply topq_create. intros _. unfold CovAll. simpl. constructor.
+Qed.
